@@ -32,9 +32,9 @@ func parseAckFrequencyFrame(b []byte, _ protocol.Version) (*AckFrequencyFrame, i
 		return nil, 0, replaceUnexpectedEOF(err)
 	}
 	// prevents overflows if the peer sends a very large value
-	maxAckDelay := time.Duration(mad) * time.Microsecond
-	if maxAckDelay < 0 {
-		maxAckDelay = math.MaxInt64
+	maxAckDelay := time.Duration(math.MaxInt64)
+	if mad <= uint64(math.MaxInt64/time.Microsecond) {
+		maxAckDelay = time.Duration(mad) * time.Microsecond
 	}
 	b = b[l:]
 	rth, l, err := quicvarint.Parse(b)
